@@ -131,6 +131,18 @@ def rule_s2(ctx):
     ctx.check(stripped <= restored, "S2-reader-restores", f"{DT}:DerivationTree.from_json.from_dict", "restored >= stripped", site(from_dict),
               f"fields {sorted(stripped - restored)} are stripped by the writer but not re-created by the reader: the decoded tree lacks them (AttributeError on first use)",
               f"reader re-creates {sorted(restored)}")
+    # representation of the children field: None (open leaf) or a TUPLE of nodes - JSON hands the reader a list, and `replace_path` / `children[:i] + (x,)`,
+    # hashing of the structure and `==` on `.children` rely on the tuple
+    child_stores = [n for n in walk_local(from_dict) if isinstance(n, ast.Assign) and isinstance(n.targets[0], ast.Subscript) and src(n.targets[0].value) == "a_dict"
+                    and "children" in src(n.targets[0].slice)]
+    if not child_stores:
+        raise Unrecognised("C17.S2", f"{DT}:DerivationTree.from_json.from_dict", "store of the decoded children not found")
+    for st in child_stores:
+        v = st.value
+        ok = (isinstance(v, ast.Constant) and v.value is None) or (isinstance(v, ast.Call) and call_name(v) == "tuple")
+        ctx.check(ok, "S2-children-tuple", f"{DT}:DerivationTree.from_json.from_dict", f"decoded children are None or a tuple `{src(v)[:40]}`", site(st),
+                  f"the decoded children are stored as `{src(v)[:60]}`, not as a tuple: a decoded (unpickled) inner node holds a list, so `.children` differs from the original's, "
+                  "and `replace_path` below such a node raises TypeError (`children[:idx] + (replacement,)`)", "tuple(...) or None")
     recursive = any(call_name(c) == "from_dict" for c in calls_in(from_dict))
     ctx.check(recursive, "S2-reader-restores", f"{DT}:DerivationTree.from_json.from_dict", "applied to every node", site(from_dict),
               "from_dict is not applied recursively to children", "children decoded with the same function")
